@@ -52,5 +52,113 @@ pub fn run(tier: &str) -> ! {
     run.add(mcx::explore(&scn, &b));
     let (sb, bb) = scenario_burst(tier);
     run.add(mcx::explore(&sb, &bb));
+    // MAINNET: real CreateMiner, block rewards, withdrawals, penalties across the first vesting days
+    let sv = scenario_vesting(tier);
+    run.add(mcx::explore(&sv, &Bounds { max_depth: if tier_is_thorough(tier) { 7 } else { 5 }, wall_cap_s: if tier_is_thorough(tier) { 900.0 } else { 25.0 }, replay_sample: 8, ..Default::default() }));
     run.finish()
+}
+
+// ------------------------------------------------------------------ MAINNET vesting walk
+
+/// Wraps a VM scenario and checks the network pledge ledger after every transition:
+/// `sum over miners (initial pledge + vesting funds) - power.total_pledge_collateral` must stay
+/// what it was in the base state (0 without KF-1, the unreported creation deposits with it).
+pub struct Pledged<Sc: mcx::Scenario> {
+    pub inner: Sc,
+    pub known_open: std::collections::BTreeSet<String>,
+}
+
+#[derive(Clone)]
+pub struct PS<S> {
+    pub s: S,
+    pub offset: fvm_shared::econ::TokenAmount,
+}
+
+pub fn pledge_gap(vm: &mcvm::Vm) -> Result<fvm_shared::econ::TokenAmount, String> {
+    use fil_actors_runtime::runtime::builtins::Type;
+    use num_traits::Zero;
+    let ps: fil_actor_power::State = vm.state_of(4).unwrap();
+    if ps.total_pledge_collateral.is_negative() {
+        return Err(format!("network pledge total is negative: {}", ps.total_pledge_collateral));
+    }
+    let mut sum = fvm_shared::econ::TokenAmount::zero();
+    for (idn, a) in vm.actor_states() {
+        if fil_actors_runtime::test_utils::ACTOR_TYPES.get(&a.code) == Some(&Type::Miner) {
+            let st: fil_actor_miner::State = vm.state_of(idn).unwrap();
+            sum += &st.initial_pledge + &st.locked_funds;
+        }
+    }
+    Ok(sum - ps.total_pledge_collateral)
+}
+
+impl<Sc, M> mcx::Scenario for Pledged<Sc>
+where
+    Sc: mcx::Scenario<S = VS<M>>,
+    Sc::W: crate::c01::HasVm,
+    M: Clone + Send + Sync,
+{
+    type S = PS<VS<M>>;
+    type A = Sc::A;
+    type W = Sc::W;
+    fn name(&self) -> String {
+        format!("c03+{}", self.inner.name())
+    }
+    fn worker(&self, store: &mcvm::Store) -> Sc::W {
+        self.inner.worker(store)
+    }
+    fn bases(&self, w: &Sc::W) -> Vec<(String, Self::S)> {
+        use crate::c01::HasVm;
+        self.inner
+            .bases(w)
+            .into_iter()
+            .map(|(n, s)| {
+                w.vm().restore(&s.snap);
+                let offset = pledge_gap(w.vm()).expect("SETUP-FAILED: negative pledge total in a base state");
+                (n, PS { s, offset })
+            })
+            .collect()
+    }
+    fn check_base(&self, _w: &Sc::W, s: &Self::S) -> Option<String> {
+        use num_traits::Zero;
+        if !s.offset.is_zero() && !self.known_open.contains("KF-1") {
+            return Some(format!("network pledge total differs from sum(IP+LF) by {} (unreported creation deposits)", s.offset));
+        }
+        None
+    }
+    fn key(&self, s: &Self::S) -> mcx::Key {
+        self.inner.key(&s.s)
+    }
+    fn actions(&self, w: &Sc::W, s: &Self::S) -> Vec<Sc::A> {
+        self.inner.actions(w, &s.s)
+    }
+    fn kind(&self, a: &Sc::A) -> String {
+        self.inner.kind(a)
+    }
+    fn step(&self, w: &Sc::W, s: &Self::S, a: &Sc::A, f: &[usize]) -> mcx::Step<Self::S> {
+        use crate::c01::HasVm;
+        use num_traits::Zero;
+        let st = self.inner.step(w, &s.s, a, f);
+        let mut out = mcx::Step { next: None, sites: st.sites, outcome: st.outcome, violation: None, known: vec![], agreed: 1 };
+        if let Some(n) = st.next {
+            match pledge_gap(w.vm()) {
+                Ok(g) => {
+                    if g != s.offset {
+                        out.violation = Some(format!("after {a:?}: sum over miners of (initial pledge + vesting funds) minus the network pledge total moved from {} to {g}: a change of locked funds or pledge was not reported exactly", s.offset));
+                    } else if !g.is_zero() {
+                        out.known.push(mcx::Known { id: "KF-1".into(), text: "creation deposit locked by the miner constructor is never reported to the power actor (network pledge total = sum(IP+LF) - sum(creation deposits))".into() });
+                    }
+                }
+                Err(e) => out.violation = Some(format!("after {a:?}: {e}")),
+            }
+            out.next = Some(PS { s: n, offset: s.offset.clone() });
+        }
+        out
+    }
+    fn describe(&self) -> serde_json::Value {
+        serde_json::json!({"wrapped": self.inner.describe(), "oracle": "sum(IP+LF) - power.total_pledge_collateral constant (= unreported creation deposits, KF-1), total never negative"})
+    }
+}
+
+pub fn scenario_vesting(tier: &str) -> Pledged<crate::c14::Withdrawals> {
+    Pledged { inner: crate::c14::scenario_actor(tier), known_open: mcx::evidence::known_open("C03") }
 }
